@@ -298,7 +298,11 @@ class FileStorage(
             self._file.write(packed_version)
 
         self._files = FilePool(self._file_name)
-        r = self._restore_index()
+        if stop == b'\377' * 8:
+            r = self._restore_index()
+        else:
+            # Time travel: a saved index describes the whole file.
+            r = None
         if r is not None:
             self._used_index = 1  # Marker for testing
             index, start, ltid = r
